@@ -123,7 +123,7 @@ def prepare(repo, tier, crate):
     if tier == 'thorough':
         zooms, adj, child = list(range(0, 32)), list(range(1, 9)), list(range(0, 8))
     else:
-        zooms, adj, child = list(range(0, 7)), [1, 2, 3], [0, 1, 2]
+        zooms, adj, child = list(range(0, 5)), [1, 2], [0, 1, 2]   # quick: the Verus unit tile_id covers every zoom; Kani re-checks zooms 0..=4 bit-precisely
     ztxt, znames = zoom_harnesses(zooms, adj, child)
     open(os.path.join(d, 'src', 'gen_zoom.rs'), 'w').write(ztxt)
     open(os.path.join(d, 'src', 'gen_latlng.rs'), 'w').write(gen_latlng(crate))
